@@ -112,9 +112,30 @@ def abstract_run(tree, typed):
     return seen, err, assign_of
 
 
+class _Watchdog(BaseException):
+    """raised by the alarm around the harness's own execution of a program (BaseException: the program cannot catch it)"""
+
+
+def _alarm(signum, frame):
+    raise _Watchdog()
+
+
 def judge(src):
     tree, typed, errors, restricted, skipped = analyse(src)
-    seen, err, assign_of = abstract_run(tree, typed)
+    if restricted or skipped:
+        # outside the strict subset (prohibited syntax, unparseable lines): the property does not speak about such
+        # programs, and the harness must not run them (`while True:` at module level would never return)
+        return [], False, 0
+    import signal
+    old = signal.signal(signal.SIGALRM, _alarm)
+    signal.alarm(10)
+    try:
+        seen, err, assign_of = abstract_run(tree, typed)
+    except _Watchdog:
+        return [], False, 0
+    finally:
+        signal.alarm(0)
+        signal.signal(signal.SIGALRM, old)
     v = []
     from nada_dsl.audit.report import type_to_str
     # preservation is judged in programs without type errors: once an ill-typed statement has run
